@@ -50,8 +50,10 @@ GateVal(m, nd, v) ==
     LET p == PrimOf(nd.kind, nd.ins)
         a == PinVal(nd, 0, v)  b == PinVal(nd, 1, v)  c == PinVal(nd, 2, v)  d == PinVal(nd, 3, v)
     IN IF m = 2 THEN Prim2(p, a, b, c, d) ELSE IF m = 4 THEN Prim8(p, a, b, c, d) % 4 ELSE Prim8(p, a, b, c, d)
-\* asg: value assigned to each interface element, indexed like SNodes(st)
-Eval(st, m, asg) ==
+\* asg: value assigned to each interface element, indexed like SNodes(st).
+\* EvalO additionally forces line ovl (0-based; -1 = none) to the value ovv AFTER it has been computed - the
+\* meaning of "that signal is driven with the overwritten values" (C16): downstream sees ovv, upstream does not.
+EvalO(st, m, asg, ovl, ovv) ==
   LET nl == NLinesOf(st)
       step(v, n) ==
         LET nd == NodeOf(st, n)
@@ -62,10 +64,13 @@ Eval(st, m, asg) ==
             \* interface elements and forks drive every connected output pin, gates only pin 0;
             \* the second output of a flip-flop is inverted
             put(vv, k) == IF nd.outs[k] >= 0 /\ (isS \/ nd.kind = FORK \/ k = 1)
-                          THEN [vv EXCEPT ![nd.outs[k] + 1] = IF isS /\ IsFF(st, n) /\ k = 2 THEN Inv(m, base) ELSE base]
+                          THEN [vv EXCEPT ![nd.outs[k] + 1] =
+                                   IF nd.outs[k] = ovl THEN ovv
+                                   ELSE IF isS /\ IsFF(st, n) /\ k = 2 THEN Inv(m, base) ELSE base]
                           ELSE vv
         IN FoldLeft(put, v, [k \in 1..Len(nd.outs) |-> k])
   IN FoldLeft(step, [i \in 1..nl |-> 0], st.topo)
+Eval(st, m, asg) == EvalO(st, m, asg, -1, 0)
 \* what is captured at interface element i (1-based position in SNodes): the value at its input pin 0
 HasCapture(st, i) == LET nd == NodeOf(st, SNodes(st)[i]) IN Len(nd.ins) > 0 /\ nd.ins[1] >= 0
 Captured(st, v, i) == v[NodeOf(st, SNodes(st)[i]).ins[1] + 1]
